@@ -151,9 +151,21 @@ def run(ck):
             continue
         if monitor(ck, scen, base, rc0, err0, calls0, tree0, tl0, 0, 'none', stats):
             continue
-        single = len(scen.msgs) == 1
+        # (the descriptor work of a command that follows a rewrite is not part of the rewrite protocol the model describes: such
+        # scenarios are judged on their final state only)
+        single = len(scen.msgs) == 1 and 'exec' not in scen.rule and 'command' not in scen.rule
         if single:
             check_model(ck, scen, calls0, rc0, stats, None)
+        if any(c['call'] == 'waitpid' for c in calls0):
+            # an unusual but legitimate environment: mdsort inherits SIGCHLD ignored (some supervisors and MTAs hand that down), so that
+            # the kernel reaps the children itself and every waitpid fails with ECHILD without any injection
+            rc, err, trace, tree, tl = scen.run(wrapper=['env', '--ignore-signal=CHLD'])
+            calls = parse_trace(trace)
+            stats['runs'] += 1
+            failing = [c for c in calls if c['call'] == 'waitpid' and not c['ok']]
+            if failing:
+                stats['triples'] += 1
+                monitor(ck, scen, base, rc, err, calls, tree, tl, failing[0]['k'], 'SIGCHLD ignored', stats)
         for c in calls0:
             for kind in fault_list(c, ck.tier):
                 plan = '%d:%s' % (c['k'], kind)
@@ -193,8 +205,8 @@ def run(ck):
         'evaluations': stats['runs'],
         'distinct_nontrivial': stats['triples'],
         'rule': 'scenario corpus (harness/iorun.py: action kinds move / move across file systems / flag / flags / label / add-header / discard / label+move / '
-                'move+flag / add-header+flag / stdin delivery with and without rewriting, 1-3 messages, small and > stdio buffer) x every call index of the '
-                'fault-free trace x every applicable failure (errno per call kind; short read/write); non-trivial = a (scenario, call index, failure) triple '
+                'move+flag / add-header+flag / two rewrites / label then pass then a rule whose condition stats the file or runs a command / exec + move / label + exec stdin / stdin delivery with and without rewriting, 1-3 messages, small and > stdio buffer) x every call index of the '
+                'fault-free trace x every applicable failure (errno per call kind; short read/write), plus every scenario with a command once with SIGCHLD inherited as ignored (waitpid fails by itself); non-trivial = a (scenario, call index, failure) triple '
                 'in which the failure was really injected; distinct by construction',
         'samples': samples,
         'traces_validated_against_impl': stats['segments'],
